@@ -80,6 +80,11 @@ func (p *Persister) Serialize() ([]byte, error) {
 
 // Deserialize decodes the state and cache from storage, and applies them to the persister.
 func (p *Persister) Deserialize(b []byte) error {
+	if p.Memory != nil {
+		// the decoder adds to the maps it finds, also those left behind the end of a truncated frame slice
+		p.Memory.Cache = nil
+		p.Memory.Sizes = make(map[string]uint16)
+	}
 	err := cbor.Unmarshal(b, p)
 	return err
 }
